@@ -431,7 +431,18 @@ Fixpoint legal_hist (fixed : bool) (s : st) (ops : list op) : Prop :=
     entry numbers in advance): [SIns j] is "the j-th pending handle, counting
     modulo their number"; an operation that has no handle to act on is
     skipped on both sides.  Every operation that is executed is legal. *)
-Inductive sop := SGet (k : N) | SIns (j : nat) | SDis (j : nat) | SPut (j : nat) | SFlush.
+Inductive sop := SGet (k : N) | SIns (j : nat) | SDis (j : nat) | SPut (j : nat) | SFlush
+                 | SRealloc (c : nat).
+
+(* def_realloc_caches (the cache.size / page-size hooks): cache_alloc of a new
+   cache, then cache_free of the old one, whose cleanup_entries hands every
+   cached entry to the cleanup callback.  The attribute hooks run under the
+   write lock of the shared data, every reader takes its references and drops
+   them under the read lock, so no handle is outstanding at this point: the
+   operation is legal exactly when cache_flush is.  (cache_flush itself is
+   only ever called from cache_alloc, on the fresh cache.) *)
+Definition do_realloc (s : st) (c : nat) : st * list (nat * nat) :=
+  (init c, map (fun e => (e, ref s e)) (prec s ++ probe s)).
 
 Definition pick (l : list nat) (j : nat) : option nat :=
   match l with
@@ -446,17 +457,24 @@ Definition resolve (s : st) (o : sop) : option op :=
   | SDis j => option_map Discard (pick (pend s) j)
   | SPut j => option_map Put (pick (plain s) j)
   | SFlush => if legalb s Flush then Some Flush else None
+  | SRealloc _ => None
   end.
 
 Inductive out :=
 | OSkip
 | OStep (o : op) (r : ret) (ev : list (nat * nat)) (s : st)
 | OFault (o : op) (f : fault)
+| ORealloc (c : nat) (ev : list (nat * nat)) (s : st)
 | ODead.                         (* after a fault nothing is defined *)
 
 Fixpoint run_slots (fixed : bool) (s : st) (ops : list sop) : list out :=
   match ops with
   | [] => []
+  | SRealloc c :: t =>
+      if legalb s Flush && (0 <? c)
+      then ORealloc c (snd (do_realloc s c)) (fst (do_realloc s c))
+             :: run_slots fixed (fst (do_realloc s c)) t
+      else OSkip :: run_slots fixed s t
   | o :: t =>
       match resolve s o with
       | None => OSkip :: run_slots fixed s t
